@@ -258,14 +258,15 @@ def abs (a : Val) : Except Err Out :=
   | _ => .error .unrecognised
 
 def neg (a : Val) : Except Err Out :=
-  if !known negBody then .error .unrecognised else
+  if !helpersRecognised then .error .unrecognised else
   match dispatch negTable [a.prim] with
   | .error e => .error e
   | .ok [rt] =>
     if isSub rt .int then
-      match a with
-      | .num _ x => wrap (fromValue .int (-x))
-      | _ => .error .unrecognised
+      match negShape, a with
+      | some .intFromValue, .num _ x => wrap (fromValue .int (-x))        -- `IntType.from_value(-int(a))`
+      | some .resTypeFromValue, .num _ x => wrap (fromValue rt (-x))      -- `res_type.from_value(-int(a))`
+      | _, _ => .error .unrecognised
     else .error .unrecognised
   | .ok _ => .error .unrecognised
 
